@@ -34,12 +34,16 @@ package helpers
 //@   ensures bytes: validCodePoint(r) ==> (forall k int :: 0 <= k && k < wtf8Len(r) ==> p[k] == wtf8Byte(r, k))
 //@   ensures replacement: !validCodePoint(r) ==> result == 3 && p[0] == 0xEF && p[1] == 0xBF && p[2] == 0xBD
 
+// C16 (termination): every caller scans with `i += width`, so a non-empty input must make progress: width 0 is reserved
+// for the empty string. (An earlier revision of this contract DESCRIBED the width-0 result for a truncated sequence
+// instead of demanding progress, and so verified a function that hangs helpers.QuoteForJSON; see DESIGN 9.4.)
 //@ func DecodeWTF8Rune
 //@   arith bv
 //@   safety
 //@   prop C01 C16
 //@   ensures size-range: 0 <= result1 && result1 <= len(s) && result1 <= 4
-//@   ensures progress: len(s) > 0 && result1 == 0 ==> (s[0] >= 0xC0 && len(s) < 4)
+//@   opt scenario quote_truncated_utf8_hang
+//@   ensures progress: len(s) > 0 ==> result1 >= 1
 //@   ensures rune-range: validCodePoint(result0)
 //@   ensures no-overlong: result1 == 2 ==> result0 >= 0x80
 //@   ensures no-overlong3: result1 == 3 ==> result0 >= 0x800
